@@ -22,6 +22,10 @@ History (JSON-able list of macro steps):
   script = {aid: reply}; reply = ["o"] (204) | ["s", [[aid,iid,status],..]] (207) |
            ["d", fin|reset|malformed|nonutf8|silent] | ["x", code]  (HTTP 4xx); default ["o"]
 rmodes = {listener: 0 never raises | 1 always | 2 only on the empty event | 3 only on non-empty events}
+lacts  = {listener: [mode, [[add?, l'], ..]]}: what the listener does to the registry from inside its
+         callback when `mode` (as above) fires: add? true = dispatcher_connect(listener l'), false = the stop
+         function of l' (l' may be the listener itself: a one-shot listener).  Targets of adds and of
+         removals are disjoint within one table (the final registry is then independent of call order).
 """
 from __future__ import annotations
 
@@ -60,13 +64,18 @@ def body_bytes(b):
     return json.dumps({"characteristics": [{"aid": a, "iid": i, "value": v} for a, i, v in b[1]]}).encode()
 
 
-def run_impl(hist, rmodes):
+def fires(m, ev):
+    return m == 1 or (m == 2 and not ev) or (m == 3 and bool(ev))
+
+
+def run_impl(hist, rmodes, lacts=None):
     """Runs one history on the real code; returns the list of per-step observations."""
     import ipsim
     import simacc
     import vloop
     logging.disable(logging.CRITICAL)
     rmodes = {int(k): int(v) for k, v in rmodes.items()}
+    lacts = {int(k): v for k, v in (lacts or {}).items()}
     steps = []
     state = dict(rs={}, step=None, silent=False)
     sessions = []
@@ -109,13 +118,26 @@ def run_impl(hist, rmodes):
             state["silent"] = True
         return None
 
+    cbs, stops, pref = {}, {}, []
+
     def mk_listener(l):
         def cb(ev):
             state["step"]["calls"].append([l, canon_event(ev)])
-            m = rmodes.get(l, 0)
-            if m == 1 or (m == 2 and not ev) or (m == 3 and ev):
+            mode, acts = lacts.get(l, [0, []])
+            if fires(mode, ev):
+                for add, l2 in acts:
+                    if add:
+                        stops[l2] = pref[0].dispatcher_connect(listener(l2))
+                    elif l2 in stops:
+                        stops[l2]()
+            if fires(rmodes.get(l, 0), ev):
                 raise ValueError(f"listener {l} raises")
         return cb
+
+    def listener(l):
+        if l not in cbs:
+            cbs[l] = mk_listener(l)
+        return cbs[l]
 
     async def main(loop):
         from aiohomekit.exceptions import AccessoryDisconnectedError
@@ -128,9 +150,9 @@ def run_impl(hist, rmodes):
             return ep
         net.endpoint_factory = factory
         undo1, undo2 = net.install(), simacc.install_fake_verify()
-        cbs, stops = {}, {}
         try:
             p = ipsim.make_pairing(["10.0.0.1"])
+            pref.append(p)
 
             async def api(coro):
                 try:
@@ -157,9 +179,7 @@ def run_impl(hist, rmodes):
                     st["ret"] = await api(p.subscribe(arg) if kind == "S" else p.unsubscribe(arg))
                     await vloop.sleep_ticks(1)
                 elif kind == "A":
-                    l = item[1]
-                    cbs.setdefault(l, mk_listener(l))
-                    stops[l] = p.dispatcher_connect(cbs[l])
+                    stops[item[1]] = p.dispatcher_connect(listener(item[1]))
                 elif kind == "D":
                     if item[1] in stops:
                         stops[item[1]]()
@@ -275,9 +295,11 @@ def model_events(item):
     raise ValueError(k)
 
 
-def model_line(hist, rmodes):
-    r = ",".join(f"{l}={m}" for l, m in sorted(rmodes.items())) or "-"
-    return "run R:" + r + " " + " ".join(t for item in hist for t in model_events(item))
+def model_line(hist, rmodes, lacts=None):
+    r = ",".join(f"{int(l)}={m}" for l, m in sorted(rmodes.items())) or "-"
+    t = ",".join(f"{int(l)}={m}" + "".join(("/+" if add else "/-") + str(l2) for add, l2 in acts)
+                 for l, (m, acts) in sorted((lacts or {}).items())) or "-"
+    return "run R:" + r + " T:" + t + " " + " ".join(t for item in hist for t in model_events(item))
 
 
 def parse_ids(t):
@@ -323,14 +345,15 @@ def parse_model(ans, hist):
 # =============================================================================================
 # comparison model <-> implementation (only what the property constrains)
 # =============================================================================================
-def listeners_of(hist, rmodes):
-    return sorted({it[1] for it in hist if it[0] in ("A", "D")} | {int(k) for k in rmodes})
+def listeners_of(hist, rmodes, lacts=None):
+    return sorted({it[1] for it in hist if it[0] in ("A", "D")} | {int(k) for k in rmodes}
+                  | {int(k) for k in (lacts or {})} | {l2 for v in (lacts or {}).values() for _, l2 in v[1]})
 
 
-def compare(hist, rmodes, model, impl):
+def compare(hist, rmodes, model, impl, lacts=None):
     """-> list of (step index, field, text)"""
     diffs = []
-    lids = listeners_of(hist, rmodes)
+    lids = listeners_of(hist, rmodes, lacts)
     nsess = 0
     for i, (item, m, o) in enumerate(zip(hist, model, impl["steps"])):
         k = item[0]
@@ -388,10 +411,23 @@ def ref_format(rows):
     return sorted([[a, i, v] for (a, i), v in d.items()], key=repr)
 
 
-def oracle(hist, rmodes, impl):
+def oracle(hist, rmodes, impl, lacts=None):
     """-> list of (slug, text, step index) : failures of C12 by the implementation on this history."""
     bad = []
+    lacts = {int(k): v for k, v in (lacts or {}).items()}
     wanted, registered, cutoff, live = set(), set(), False, False
+
+    def delivered(ev):
+        """registry changes the listeners registered when `ev` arrives make from inside their callbacks"""
+        adds, dels = set(), set()
+        for l in registered:
+            mode, acts = lacts.get(l, [0, []])
+            if fires(mode, ev):
+                adds |= {l2 for add, l2 in acts if add}
+                dels |= {l2 for add, l2 in acts if not add}
+        registered.difference_update(dels)
+        registered.update(adds)
+
     for idx, (item, o) in enumerate(zip(hist, impl["steps"])):
         k = item[0]
         by = collections.defaultdict(list)
@@ -410,13 +446,22 @@ def oracle(hist, rmodes, impl):
             wanted -= {tuple(c) for c in item[1]}
         if k == "CU" and o["sess"]:
             live = True
+            reentrant = any(fires(lacts.get(l, [0, []])[0], {}) and lacts[l][1] for l in registered)
             for l in sorted(registered):
                 if by.get(l, []) != [[]]:
-                    bad.append(("connup:listener-not-notified", f"listener {l} got {by.get(l, [])} instead of exactly one "
+                    bad.append(("connup:listener-not-notified" + (":reentrant-registry-change" if reentrant else ""),
+                                f"listener {l} got {by.get(l, [])} instead of exactly one "
                                 "empty 'connection is back' event when the session came up", idx))
             for l in by:
                 if l not in registered:
-                    bad.append(("call-to-removed-listener", f"listener {l} is not registered but was called", idx))
+                    bad.append(("call-to-removed-listener" + (":reentrant-registry-change" if reentrant else ""),
+                                f"listener {l} was not registered when the session came up but was called", idx))
+            if o.get("nsess", 0) > 1 or o["errors"] or (not o["connected"] and not lost_here):
+                bad.append(("connup:session-broken" + (":reentrant-registry-change" if reentrant else ""),
+                            f"the new session did not survive telling the listeners (connections opened {o.get('nsess')}, "
+                            f"connected afterwards {o['connected']}, loop errors {o.get('error_kinds')}) although the accessory "
+                            "did not drop it", idx))
+            delivered({})
             if not cutoff and not cut_here:
                 reg = {tuple(c) for p in true_puts for c in p[1]}
                 if not wanted <= reg:
@@ -424,15 +469,23 @@ def oracle(hist, rmodes, impl):
                                 f"but the caller is subscribed to {sorted(wanted)} and no subscribe request was ever cut off",
                                 idx))
         elif k == "EB" and o["sent"]:
-            exp = [ref_format(b[1]) for b in item[1] if not isinstance(b, str)]
-            for l in sorted(registered):
-                if by.get(l, []) != exp:
-                    bad.append(("event:listener-log", f"listener {l} got {by.get(l, [])}, the accessory sent {exp}", idx))
-            for l in by:
-                if l not in registered:
-                    bad.append(("call-to-removed-listener", f"listener {l} is not registered but was called", idx))
+            exp = collections.defaultdict(list)
+            reentrant = False
+            for b in item[1]:
+                if isinstance(b, str):
+                    continue
+                ev = ref_format(b[1])
+                reentrant |= any(fires(lacts.get(l, [0, []])[0], ev) and lacts[l][1] for l in registered)
+                for l in registered:
+                    exp[l].append(ev)
+                delivered(ev)
+            tag = ":reentrant-registry-change" if reentrant else ""
+            for l in sorted(set(exp) | set(by)):
+                if by.get(l, []) != exp.get(l, []):
+                    bad.append(("event:listener-log" + tag, f"listener {l} got {by.get(l, [])}, but the messages that arrived "
+                                f"while it was registered are {exp.get(l, [])}", idx))
             if o.get("closing_after") or not o["connected"] or o["errors"]:
-                bad.append(("event:connection-closed", "the connection was closed while delivering events "
+                bad.append(("event:connection-closed" + tag, "the connection was closed while delivering events "
                             f"(errors {o.get('error_kinds')})", idx))
         elif o["calls"]:
             bad.append(("spurious-call", f"listeners called {o['calls']} in a {k} step", idx))
@@ -467,7 +520,11 @@ def gen_exhaustive(depth):
     """Reconnect cycles / cut-offs at every point of every short history over the base alphabet."""
     B = base_alphabet()
     prefix = [["A", 1], ["A", 2], ["S", [[1, 2], [2, 2]], {}, {}], ["CU", {}]]
-    rm_cycle = [{}, {"2": 1}, {"1": 2}, {"2": 3}]
+    bh_cycle = [({}, {}), ({"2": 1}, {}), ({"1": 2}, {}), ({"2": 3}, {}),
+                ({}, {"1": [3, [[False, 1]]]}),                        # one-shot listener (real events)
+                ({"2": 1}, {"2": [1, [[False, 2], [True, 3]]]}),       # raises, removes itself, registers 3
+                ({}, {"1": [2, [[False, 2]]]}),                        # on connection-back 1 removes 2
+                ({"1": 3}, {"2": [3, [[True, 4]]]})]
     n = 0
     for k in range(depth + 1):
         for seq in itertools.product(range(len(B)), repeat=k):
@@ -490,7 +547,7 @@ def gen_exhaustive(depth):
                             op2[2] = dict(op2[2], **{aid: rep})
                             variants.append(ops[:pos] + [op2, ["CU", {}]] + ops[pos + 1:])
             for v in variants:
-                yield prefix + v + PROBE, rm_cycle[n % len(rm_cycle)]
+                yield prefix + v + PROBE, bh_cycle[n % len(bh_cycle)][0], bh_cycle[n % len(bh_cycle)][1]
                 n += 1
 
 
@@ -540,6 +597,14 @@ def rand_body(r):
 def gen_random(r, n):
     for _ in range(n):
         rm = {str(l): r.choice([1, 1, 2, 3]) for l in (1, 2, 3) if r.random() < 0.4}
+        la = {}
+        if r.random() < 0.35:
+            # removal targets within {1,2}, registration targets within {3,4}: disjoint
+            for l in r.sample([1, 2, 3], r.choice([1, 1, 2])):
+                acts = [[False, t] for t in r.sample([1, 2], r.choice([0, 1, 1, 2]))] + \
+                       [[True, t] for t in r.sample([3, 4], r.choice([0, 0, 1]))]
+                if acts:
+                    la[str(l)] = [r.choice([1, 2, 3, 3]), acts]
         hist, up = [], False
         for _ in range(r.choice([3, 5, 8, 12, 20])):
             x = r.random()
@@ -548,9 +613,9 @@ def gen_random(r, n):
             elif x < 0.32:
                 hist.append(["U", rand_ids(r), rand_script(r) if up else {}, {"as_set": r.random() < 0.3}])
             elif x < 0.42:
-                hist.append(["A", r.choice([1, 2, 3])])
+                hist.append(["A", r.choice([1, 2, 3, 4])])
             elif x < 0.48:
-                hist.append(["D", r.choice([1, 2, 3])])
+                hist.append(["D", r.choice([1, 2, 3, 4])])
             elif x < 0.7:
                 if (up and r.random() < 0.95) or (not up and r.random() < 0.05):
                     hist.append(["CD", r.choice(["fin", "reset"])])
@@ -566,25 +631,30 @@ def gen_random(r, n):
                 rs = last[2] if last[0] != "CU" else last[1]
                 if any(v[0] == "d" for v in rs.values()):
                     up = False if r.random() < 0.8 else up
-        yield hist + PROBE, rm
+        yield hist + PROBE, rm, la
 
 
 # =============================================================================================
 # run
 # =============================================================================================
 def _impl_job(args):
-    hist, rm = args
-    return run_impl(hist, rm)
+    hist, rm, la = args
+    return run_impl(hist, rm, la)
 
 
-def first_failure(hist, rm, drv):
-    """(oracle failures, correspondence diffs) of one history."""
-    impl = run_impl(hist, rm)
-    model = parse_model(drv.batch([model_line(hist, rm)])[0], hist)
-    return oracle(hist, rm, impl), compare(hist, rm, model, impl), impl, model
+def ints(d):
+    return {int(k): v for k, v in (d or {}).items()}
 
 
-def shrink_history(hist, rm, pred):
+def check_one(hist, rm, la, drv):
+    """(oracle failures, correspondence diffs, impl, model answer) of one history."""
+    impl = run_impl(hist, rm, la)
+    ans = drv.batch([model_line(hist, ints(rm), ints(la))])[0]
+    model = parse_model(ans, hist)
+    return oracle(hist, ints(rm), impl, la), compare(hist, ints(rm), model, impl, la), impl, ans
+
+
+def shrink_history(hist, pred):
     body = hist[:-len(PROBE)] if hist[-len(PROBE):] == PROBE else hist
     tail = hist[len(body):]
     small = shrink_list(body, lambda c: pred(c + tail), budget=120)
@@ -594,67 +664,74 @@ def shrink_history(hist, rm, pred):
 def run(ctx):
     tier, seed = ctx["tier"], ctx["seed"]
     drv = Driver(ctx["driver"])
-    cov = Coverage("distinct (history, raising-listener table) in which at least one secure session was established and at "
+    cov = Coverage("distinct (history, listener-behaviour tables) in which at least one secure session was established and at "
                    "least one subscription request or listener call was observed on the implementation")
     viols = []
     if ctx.get("replay"):
         rp = json.load(open(ctx["replay"]))
-        cases = [(rp["history"], rp.get("rmodes", {}))]
+        cases = [(rp["history"], rp.get("rmodes", {}), rp.get("lacts", {}))]
     else:
         depth, nrand = (2, 1500) if tier == "quick" else (3, 34000)
         cases = list(gen_exhaustive(depth))
         n_ex = len(cases)
         cases += list(gen_random(rng(seed, "c12rand"), nrand))
-        for item in json.load(open(os.path.join(ctx["verif"], "harness", "corpus", "C12.json"))) \
-                if os.path.exists(os.path.join(ctx["verif"], "harness", "corpus", "C12.json")) else []:
-            cases.append((item["history"], item.get("rmodes", {})))
+        cp = os.path.join(ctx["verif"], "harness", "corpus", "C12.json")
+        for item in (json.load(open(cp)) if os.path.exists(cp) else []):
+            cases.append((item["history"], item.get("rmodes", {}), item.get("lacts", {})))
         cov.extra["exhaustive"] = True
         cov.extra["exhaustive_part"] = (
             f"{n_ex} histories: every sequence of <= {depth} operations over an 8-operation alphabet (subscribe/unsubscribe "
             "with overlapping sets over aids 1,2, a rejected unsubscribe, listener add/remove, event bursts incl. empty/non-JSON "
             "and a split read) after a fixed prefix, with at EVERY position: a FIN or RST reconnect cycle, the operation "
             "executed while disconnected, a reconnect whose re-subscribe is cut off (5 ways + HTTP 4xx, per aid), and for "
-            "every subscribe/unsubscribe request the same cut-offs of the request itself; 4 raising-listener tables in rotation")
-    lines = [model_line(h, {int(k): v for k, v in rm.items()}) for h, rm in cases]
+            "every subscribe/unsubscribe request the same cut-offs of the request itself; 8 listener-behaviour tables "
+            "(raising / self-removing / registering listeners) in rotation")
+    lines = [model_line(h, ints(rm), ints(la)) for h, rm, la in cases]
     answers = drv.batch(lines)
     if tier == "thorough" and len(cases) > 5000:
         with concurrent.futures.ProcessPoolExecutor(6) as ex:
             impls = list(ex.map(_impl_job, cases, chunksize=200))
     else:
-        impls = [run_impl(h, rm) for h, rm in cases]
+        impls = [run_impl(h, rm, la) for h, rm, la in cases]
     kinds_seen = collections.Counter()
     nudges = 0
     seen_keys = set()
-    for idx, ((hist, rm), ans, impl) in enumerate(zip(cases, answers, impls)):
-        rmi = {int(k): v for k, v in rm.items()}
+    for idx, ((hist, rm, la), ans, impl) in enumerate(zip(cases, answers, impls)):
         model = parse_model(ans, hist)
         for m in model:
             kinds_seen.update(set(m["kinds"]))
         nudges += impl["nudges"]
-        orc = oracle(hist, rmi, impl)
-        diffs = compare(hist, rmi, model, impl)
+        orc = oracle(hist, ints(rm), impl, la)
+        diffs = compare(hist, ints(rm), model, impl, la)
         nontrivial = any(o["sess"] for o in impl["steps"]) and any(o["puts"] or o["calls"] for o in impl["steps"])
-        cov.case(json.dumps([hist, rm], sort_keys=True), nontrivial,
-                 sample=dict(history=hist, rmodes=rm,
+        cov.case(json.dumps([hist, rm, la], sort_keys=True), nontrivial,
+                 sample=dict(history=hist, rmodes=rm, lacts=la,
                              sessions=sum(o.get("nsess", 0) for o in impl["steps"]),
                              listener_calls=sum(len(o["calls"]) for o in impl["steps"])) if idx % 397 == 0 else None,
                  steps=len(hist), sessions=sum(o.get("nsess", 0) for o in impl["steps"]),
                  cutoffs=",".join(sorted({p[2] + ("t" if p[0] else "f") for o in impl["steps"] for p in o["puts"]
                                           if p[2] in ("d", "x")})) or "none",
                  raising=",".join(f"{k}:{v}" for k, v in sorted(rm.items())) or "none",
+                 reentrant=",".join(f"{k}:{v[0]}" for k, v in sorted(la.items())) or "none",
                  event_msgs=sum(len(it[1]) for it in hist if it[0] == "EB"))
         if orc:
+            # everything that goes wrong in a history after a re-entrant registry change hit the live-set
+            # iteration is one defect: key it as such
+            TAG = ":reentrant-registry-change"
+            tagged = any(s.endswith(TAG) for s, _, _ in orc)
             for slug in sorted({s for s, _, _ in orc}):
-                if slug in seen_keys:
+                key = slug if (slug.endswith(TAG) or not tagged) else slug + TAG
+                if key in seen_keys:
                     continue
-                seen_keys.add(slug)
-                text = next(t for s, t, _ in orc if s == slug)
-                small = shrink_history(hist, rm, lambda c: any(s == slug for s, _, _ in oracle(c, rmi, run_impl(c, rm))))
-                o2 = run_impl(small, rm)
-                viols.append(violation(slug, f"C12 violated by the implementation: {text}", True,
-                                       history=small, rmodes=rm, original_history=hist,
-                                       oracle=[list(x) for x in oracle(small, rmi, o2)], impl=o2["steps"],
-                                       expected="see oracle text; model: " + drv.batch([model_line(small, rmi)])[0]))
+                seen_keys.add(key)
+                small = shrink_history(hist, lambda c: any(s == slug for s, _, _ in
+                                                           oracle(c, ints(rm), run_impl(c, rm, la), la)))
+                oc, _, o2, ans2 = check_one(small, rm, la, drv)
+                text = next((t for s, t, _ in oc if s == slug), next(t for s, t, _ in orc if s == slug))
+                viols.append(violation(key, f"C12 violated by the implementation: {text}", True,
+                                       history=small, rmodes=rm, lacts=la, original_history=hist,
+                                       oracle=[list(x) for x in oc], impl=o2["steps"],
+                                       expected="see the oracle text; model (repaired behaviour): " + ans2))
         elif diffs:
             i, field, text = diffs[0]
             key = f"{field}:model-mismatch"
@@ -663,29 +740,32 @@ def run(ctx):
             seen_keys.add(key)
             # neighbourhood: every history obtained by deleting one step - does the oracle fail there?
             found = None
-            body = hist[:-len(PROBE)]
+            body = hist[:-len(PROBE)] if hist[-len(PROBE):] == PROBE else hist
             for j in range(len(body)):
                 cand = body[:j] + body[j + 1:] + PROBE
-                oc = oracle(cand, rmi, run_impl(cand, rm))
+                oc = oracle(cand, ints(rm), run_impl(cand, rm, la), la)
                 if oc:
                     found = (cand, oc)
                     break
             if found:
                 viols.append(violation(found[1][0][0], "C12 violated by the implementation: " + found[1][0][1], True,
-                                       history=found[0], rmodes=rm, oracle=[list(x) for x in found[1]]))
+                                       history=found[0], rmodes=rm, lacts=la, oracle=[list(x) for x in found[1]]))
             else:
-                small = shrink_history(hist, rm, lambda c: bool(first_failure(c, rmi, drv)[1]))
+                small = shrink_history(hist, lambda c: bool(check_one(c, rm, la, drv)[1]))
+                _, d2, o2, ans2 = check_one(small, rm, la, drv)
                 viols.append(violation(key, f"step {i} ({hist[i][0]}): implementation and model differ on {field}: {text}",
-                                       False, history=small, rmodes=rm, original_history=hist, diffs=[list(x) for x in diffs[:6]],
-                                       impl=run_impl(small, rm)["steps"], model=drv.batch([model_line(small, rmi)])[0],
+                                       False, history=small, rmodes=rm, lacts=la, original_history=hist,
+                                       diffs=[list(x) for x in (d2 or diffs)[:6]], impl=o2["steps"], model=ans2,
                                        broken="correspondence Model/Subs.v <-> aiohomekit/controller/ip/pairing.py, abstract.py"))
     cov.extra["model_output_kinds_seen"] = dict(kinds_seen)
     cov.extra["reconnect_nudges_design_6o"] = nudges
     cov.extra["domain"] = ("replies to PUT /characteristics: 204, 207 with status rows, HTTP 4xx, or a cut-off (FIN, RST, "
                            "unparsable/non-UTF-8 body, no answer for 30 s); event bodies: characteristics lists with value rows, "
-                           "empty, non-JSON; listeners raise Exception subclasses only; calls are sequential (one API call or "
-                           "one accessory action at a time); dials are refused between a drop and the next ConnUp step; one reply script "
-                           "contains one cut-off class (which request meets it first follows Python set order)")
+                           "empty, non-JSON; listeners raise Exception subclasses only and may (un)register listeners from "
+                           "inside their callback (removal and registration targets disjoint); calls are sequential (one API "
+                           "call or one accessory action at a time); dials are refused between a drop and the next ConnUp "
+                           "step; one reply script contains one cut-off class (which request meets it first follows Python "
+                           "set order)")
     cov.extra["trusted_base_extra"] = ["harness/vloop.py, harness/simacc.py, harness/ipsim.py (virtual-time loop, in-memory transport, "
                                        "simulated accessory, fake pair-verify seam); harness/c12.py oracle and comparison"]
     return dict(coverage=cov.to_dict(), violations=viols)
